@@ -451,6 +451,12 @@ class Base:
             return b"f" + struct.pack("d", arg)
         if isinstance(arg, tuple):
             return b"t" + Base._seq_serialize(arg)
+        if isinstance(arg, claripy.fp.FSort):
+            # (by content, not by hash(): the hash of a str changes from process to process, and with it the hash of
+            # every float expression - which a pickled solver uses as a dictionary key)
+            return b"S" + Base._seq_serialize((arg.name, arg.exp, arg.mantissa))
+        if isinstance(arg, claripy.fp.RM):
+            return b"R" + arg.name.encode()
         if isinstance(arg, claripy.annotation.Annotation) and type(arg).__hash__ is not object.__hash__:
             # Python's hash() collides for different contents (hash(-1) == hash(-2), hash(2**61 - 1) == hash(0)), which
             # would merge ASTs that differ only in annotation contents: serialize the contents instead
